@@ -18,7 +18,7 @@ no-failing-input-found); a failed property check on the real output is a VIOLATI
 import collections, concurrent.futures as cf, hashlib, os, shutil
 from .common import BUILD
 
-PROPS = ["PPLV.Props.C01Conv", "PPLV.Props.C01ConvComplete", "PPLV.Props.C01ConvMinimal"]
+PROPS = ["PPLV.Props.C01Conv", "PPLV.Props.C01ConvComplete", "PPLV.Props.C01ConvMinimal", "PPLV.Props.C01ConvFacet"]
 
 
 def _split_cases(journal):
